@@ -32,7 +32,7 @@ TRUSTED = [
     'axioms printed by Print Assumptions: the standard-library real-number axioms (ClassicalDedekindReals.sig_not_dec, '
     'sig_forall_dec, functional_extensionality_dep) and Classical_Prop.classic (Coquelicot)',
     'Section hypothesis (premise of the Gaussian theorems): erf is differentiable with derivative 2/sqrt(pi) exp(-x^2)',
-    'translator/py2coq.py: per-element reading of the numpy formulas of flux_model.py / math.py (73 kernels of G_flux.v, '
+    'translator/py2coq.py: per-element reading of the numpy formulas of flux_model.py / math.py (85 kernels of G_flux.v, '
     'each pinned by one K_ lemma)',
     'hand model M_Flux.v of class dispatch, setter / set_params plumbing, constructors, deepcopy as allocation in an '
     'explicit store; validated by this correspondence',
@@ -194,7 +194,7 @@ def observe(e, store, ob):
             return ['E:TypeError']
         return [float(x.get_total_integral())]
     if k in ('TC', 'TI', 'CD'):
-        if not isinstance(x, fm.TimeFluxProfile) or (k == 'CD' and not isinstance(x, fm.BoxTimeFluxProfile)):
+        if not isinstance(x, fm.TimeFluxProfile) or (k == 'CD' and not hasattr(x, 'cdf')):
             return ['E:TypeError']
         U = uarg(e['TU'], ob[2])
         if k == 'TC':
@@ -202,6 +202,10 @@ def observe(e, store, ob):
         if k == 'CD':
             return [float(x.cdf(ob[3], unit=U)[0])]
         return [float(np.atleast_1d(x.get_integral(ob[3], ob[4], unit=U))[0])]
+    if k == 'TU':
+        if not is_model(e, x):
+            return ['E:TypeError']
+        return [float(x.to_internal_flux_unit())]
     if k == 'SC':
         if not isinstance(x, fm.SpatialFluxProfile):
             return ['E:TypeError']
@@ -289,6 +293,8 @@ def obs_tol(case, ob, store_kinds):
                 return 4e-15 * abs(E0 ** g / (1 - g)) * (b ** (1 - g) + a ** (1 - g))
             except (OverflowError, ZeroDivisionError):
                 return math.inf
+    if k == 'CD':
+        return 1e-12
     if k == 'TT':
         o = store_kinds.get(ob[1])
         if o and o[0] == 'GA':
@@ -1024,13 +1030,16 @@ def gen_case(ctx, rng, malformed=False):
             a = rng.uniform(-150, 100); b = a + rng.uniform(0, 120)
             obs.append(['TI', l, u, a * scale, b * scale])
             obs.append(['TT', l])
-            if k == 'BX':
+            if k in ('BX', 'GA'):
                 obs.append(['CD', l, u, rng.uniform(-150, 150) * scale])
+                obs.append(['CD', l, -1, rng.uniform(-150, 150)])
         elif k in ('US', 'PT'):
             obs.append(['SC', l, rng.uniform(0, 6), rng.uniform(-1, 1)])
         elif k == 'FM':
             obs.append(['FC', l, rng.randrange(2), rng.uniform(0, 6), rng.uniform(-1, 1), rng.randrange(2), rpos(rng, 0, 3),
                         rng.randrange(2), rng.uniform(-100, 100), rng.choice([-1, 0, 1, 2]), rng.choice([-1, 0, 1, 2])])
+        if k == 'FM':
+            obs.append(['TU', l])
         for n in rng.sample(NAMES, 3):
             obs.append(['GP', l, n])
     if malformed:
@@ -1053,8 +1062,7 @@ def window_case(ctx, rng):
     obs = [['ST', 0]]
     for t in (ts, te, np.nextafter(ts, -np.inf), np.nextafter(ts, np.inf), np.nextafter(te, -np.inf), np.nextafter(te, np.inf)):
         obs.append(['TC', 0, -1, float(t)])
-        if k == 'BX':
-            obs.append(['CD', 0, -1, float(t)])
+        obs.append(['CD', 0, -1, float(t)])
     for (a, b) in ((ts, te), (ts - 1, ts), (te, te + 1), (ts - 1, te + 1), (ts - 2, ts - 1), (te + 1, te + 2), (ts, ts)):
         obs.append(['TI', 0, -1, float(a), float(b)])
     ctx.count('window-edge-case:' + k)
